@@ -279,6 +279,35 @@ def arch_sizes(agent) -> str:
                     for k, (n, r, _) in enumerate(layout) if not r.startswith("s"))
 
 
+def eval_param_ids(agent) -> list:
+    return [[id(p) for m in mods_of(agent, n) for p in m.parameters()]
+            for n, r, _ in net_layout(agent) if not r.startswith("s")]
+
+
+def eval_archs(agent) -> str:
+    return json.dumps([[canon(m.init_dict) for m in mods_of(agent, n)]
+                       for n, r, _ in net_layout(agent) if not r.startswith("s")], sort_keys=True, default=str)
+
+
+def opt_state_sizes(agent) -> list:
+    out = []
+    for oc in agent.registry.optimizers:
+        w = getattr(agent, oc.name)
+        subs = w.optimizer if isinstance(w.optimizer, list) else [w.optimizer]
+        out.append(sum(len(getattr(o, "optimizer", o).state) for o in subs))
+    return out
+
+
+def targets_in_sync(agent):
+    """None when the agent has no shared network, else whether every one equals its evaluation network"""
+    layout = net_layout(agent)
+    pairs = [(n, layout[src][0]) for n, _, src in layout if src is not None]
+    if not pairs:
+        return None
+    return all(len(mods_of(agent, a)) == len(mods_of(agent, b)) and
+               all(same_weights(x, y) for x, y in zip(mods_of(agent, a), mods_of(agent, b))) for a, b in pairs)
+
+
 def fingerprint(agent) -> dict:
     """value fingerprint of everything a learn step may legitimately change in ITS agent"""
     out = {}
@@ -319,7 +348,11 @@ class Recorder:
 
     def wrap_mutations(self, m):
         def wrap(fn):
-            kind = OPTION_KIND[fn.__name__]
+            # by identity with the class attribute, so that a patched method is still recognised
+            kind = next((k for a, k in OPTION_KIND.items()
+                         if getattr(fn, "__func__", None) is getattr(type(m), a, None)), None)
+            if kind is None:
+                raise InfraError(f"unknown mutation option {fn!r}")
 
             def wrapped(individual, _fn=fn, _kind=kind):
                 self.kinds[id(individual)] = _kind
@@ -454,6 +487,10 @@ def run_history(chk: Check, case: dict, mode: str = "repaired") -> dict:
                 elif op[0] == "mutate":
                     probs, pre, mseed, elite = op[1], bool(op[2]), op[3], bool(op[4])
                     before_idx = [ag.index for ag in pop]
+                    before_ids = [eval_param_ids(ag) for ag in pop]
+                    before_arch = [eval_archs(ag) for ag in pop]
+                    before_state = [opt_state_sizes(ag) for ag in pop]
+                    before_sync = [targets_in_sync(ag) for ag in pop]
                     m = Mutations(no_mutation=probs[0], architecture=probs[1], new_layer_prob=0.5, parameters=probs[2],
                                   activation=probs[3], rl_hp=probs[4], mutation_sd=0.1, rand_seed=mseed,
                                   mutate_elite=elite, device="cpu")
@@ -472,15 +509,28 @@ def run_history(chk: Check, case: dict, mode: str = "repaired") -> dict:
                         kind = rec.kinds.get(id(ag), "none")
                         label = str(ag.mut)
                         tags.append("kind-" + kind)
+                        if i < len(before_state):
+                            # measured, not judged: the property does not forbid losing the Adam moments
+                            st = opt_state_sizes(ag)
+                            if any(b > 0 for b in before_state[i]):
+                                lost = sum(1 for b, a in zip(before_state[i], st) if b > 0 and a == 0)
+                                tags.append(f"optstate-{'dropped' if lost else 'kept'}-{kind}")
+                            if before_sync[i] is False and targets_in_sync(ag):
+                                tags.append(f"targets-hard-synced-{kind}")
+                        touched = i < len(before_ids) and eval_param_ids(ag) != before_ids[i]
+                        rearch = i < len(before_arch) and eval_archs(ag) != before_arch[i]
                         if kind == "none":
                             choices.append("none")
                             want = "None"
+                            if touched or rearch:
+                                problems.append(f"{where}: agent {i} drew no mutation but its evaluation networks changed")
                         elif kind == "param":
                             choices.append("param")
                             want = "param"
                         elif kind == "act":
                             choices.append("act")
-                            want = "None" if algo in ACT_EXEMPT else "act"
+                            # what it received is what can be seen: networks rebuilt or left alone
+                            want = "act" if (touched or rearch) else "None"
                         elif kind == "rl_hp":
                             name = rec.hp.get(id(ag))
                             if name is None:          # empty hp_config: the code reports "None"
@@ -498,6 +548,9 @@ def run_history(chk: Check, case: dict, mode: str = "repaired") -> dict:
                             ap = applied_of(ag)
                             choices.append("arch " + ",".join("_" if x is None else str(x) for x in ap) + " " + arch_sizes(ag))
                             want = str(ap[0])
+                            if ap[0] is None and rearch:
+                                problems.append(f"{where}: agent {i} reports that no architecture method was applied "
+                                                "but the architecture of an evaluation network changed")
                             tags.append("arch-" + ("noop" if ap[0] is None else str(ap[0]).split(".")[-1]))
                         # ---- oracle: the agent reports the mutation it received
                         if label != want:
@@ -633,13 +686,13 @@ def case_list(chk: Check):
     for algo in A.ALGOS:
         # one history per unit vector would be too slow for the quick tier: each algorithm gets the five
         # kinds as first-generation kinds spread over its histories, the rest is drawn
-        firsts = rng.sample(KINDS, k=2) if quick else KINDS + [None, None]
+        firsts = rng.sample(KINDS, k=3) if quick else KINDS + [None, None]
         for fk in firsts:
             share = None
             if algo in A.SHARE_ENCODER_ALGOS:
                 share = rng.random() < 0.7
             gens = rng.randint(1, 3) if quick else 6
-            size = 2 if quick else rng.choice([2, 3])
+            size = rng.choice([2, 2, 3])
             cases.append({"algo": algo, "family": "vector", "share": share, "seed": rng.randrange(1 << 20),
                           "size": size, "ops": gen_ops(rng, gens, size, fk)})
     # learning-rate mutations where one lr attribute feeds several optimizers
@@ -649,7 +702,7 @@ def case_list(chk: Check):
                       "hps": [hp], "ops": gen_ops(rng, 2, 2, "rl_hp")})
     # other observation families
     fams = ["image", "dict", "discrete", "tuple"]
-    extra = 3 if quick else 16
+    extra = 5 if quick else 16
     tries = 0
     while extra > 0 and tries < 200:
         tries += 1
@@ -753,10 +806,13 @@ def selftest(chk: Check) -> None:
     """seeded faults in `Mutations` that break the property must be noticed"""
     from agilerl.hpo.mutation import Mutations
 
-    def must_fail(name: str, case: dict) -> None:
+    def must_fail(name: str, case: dict, expect: str) -> None:
         res = run_history(chk, case)
         if not res["problems"] and res["diff"] is None:
             raise InfraError(f"C02 self-test: seeded fault '{name}' was not noticed")
+        if not any(expect in p for p in res["problems"]) or res["diff"] is None:
+            raise InfraError(f"C02 self-test: seeded fault '{name}' was noticed for the wrong reason: "
+                             f"{res['problems'][:2]} diff={res['diff']}")
         chk.notes.append(f"self-test: {name} detected ({'oracle: ' + res['problems'][0][:110] if res['problems'] else 'correspondence'})")
 
     base = {"family": "vector", "share": None, "seed": 5, "size": 2}
@@ -773,7 +829,8 @@ def selftest(chk: Check) -> None:
             self.reinit_opt = keep
     Mutations.architecture_mutate = arch_without_reinit
     try:
-        must_fail("reinit_opt skipped after an architecture mutation", dict(base, algo="DDPG", ops=arch_ops))
+        must_fail("reinit_opt skipped after an architecture mutation", dict(base, algo="DDPG", ops=arch_ops),
+                  "does not hold the current parameters")
     finally:
         Mutations.architecture_mutate = o_arch
     # 2. shared networks not re-created
@@ -789,7 +846,8 @@ def selftest(chk: Check) -> None:
         return out
     Mutations.mutation = mutation_keeping_targets
     try:
-        must_fail("shared networks not re-created after an architecture mutation", dict(base, algo="TD3", ops=arch_ops))
+        must_fail("shared networks not re-created after an architecture mutation", dict(base, algo="TD3", ops=arch_ops),
+                  "does not have the architecture of")
     finally:
         Mutations.mutation = o_mut
     # 3. `mut` label not set
@@ -803,7 +861,7 @@ def selftest(chk: Check) -> None:
     Mutations.parameter_mutation = param_without_label
     try:
         must_fail("mut label not set by parameter_mutation",
-                  dict(base, algo="DQN", ops=[["mutate", UNIT["param"], 0, 11, 1]]))
+                  dict(base, algo="DQN", ops=[["mutate", UNIT["param"], 0, 11, 1]]), "but reports mut=")
     finally:
         Mutations.parameter_mutation = o_param
     # 4. only the first optimizer of a mutated learning rate rebuilt (the repaired defect D19)
@@ -826,7 +884,7 @@ def selftest(chk: Check) -> None:
     Mutations.rl_hyperparam_mutation = first_only
     try:
         must_fail("only the first optimizer of a mutated learning rate rebuilt",
-                  dict(base, algo="TD3", hps=["lr_critic"], ops=[["mutate", UNIT["rl_hp"], 0, 11, 1]]))
+                  dict(base, algo="TD3", hps=["lr_critic"], ops=[["mutate", UNIT["rl_hp"], 0, 11, 1]]), "trains with lr")
     finally:
         Mutations.rl_hyperparam_mutation = o_hp
 
